@@ -1,4 +1,5 @@
 import Vet.Props.C11
+import Vet.Props.Commands
 #print axioms Vet.C11_local_audits
 #print axioms Vet.C11_imports
 #print axioms Vet.C11_publishers
@@ -8,3 +9,11 @@ import Vet.Props.C11
 #print axioms Vet.C11_exemptions_untouched_partial
 #print axioms Vet.C11_no_fresh_exemption_partial
 #print axioms Vet.C11_no_fresh_exemption_build
+#print axioms Vet.C11_cleanup_other_exemptions_partial
+#print axioms Vet.C11_cleanup_other_audits
+#print axioms Vet.C11_check_mode_audits
+#print axioms Vet.Store.ask_frame
+#print axioms Vet.Store.ask_audit_self
+#print axioms Vet.Store.ask_audit_other
+#print axioms Vet.Store.ask_exemption_self
+#print axioms Vet.Store.ask_exemption_other
